@@ -8,7 +8,7 @@ import z3
 from z3 import And, Or, Not, Implies, If, IntVal, RealVal, BoolVal
 from . import sorts as so
 from .values import NONE, Unsupported, SList, SDict, SSet, SObj
-from .engine import (Run, PathEnd, ReturnEx, RaiseEx, BreakEx, ContinueEx, View, Unbindable, snap_env, Obligation)
+from .engine import (Run, PathEnd, ReturnEx, RaiseEx, BreakEx, ContinueEx, View, Unbindable, snap_env, Obligation, ceval)
 from .lib import Lib
 
 REPO = os.environ.get('VERIF_REPO', '/repo')
@@ -225,7 +225,7 @@ def run_path(unit, lib, prefix, skip):
                 if c.must_raise is not None:
                     run.oblige('post', 'raise-required', end_line, Not(c.must_raise(old)))
                 if c.ensures is not None:
-                    goal = c.ensures(old, new, outcome[1])
+                    goal = ceval(c.ensures, old, new, outcome[1])
                     for k, g in enumerate(flatten_and(goal)):
                         run.oblige('post', 'post.%d' % k, end_line, g)
             else:
@@ -521,6 +521,7 @@ def verify_many(jobs, nproc=12, unit_timeout_s=1500):
     results = [None] * len(jobs)
     pending = list(enumerate(jobs))
     running = {}
+    retried = set()
     while pending or running:
         while pending and len(running) < nproc:
             idx, job = pending.pop(0)
@@ -544,6 +545,12 @@ def verify_many(jobs, nproc=12, unit_timeout_s=1500):
             elif time.time() - t0 > unit_timeout_s:
                 p.terminate()
                 got = dict(status='undecided', error='unit exceeded the time limit of %d s' % unit_timeout_s)
+            if got is not None and got.get('status') == 'crash' and 'obligations' not in got and idx not in retried:
+                # the solver library died (e.g. a segfault inside z3): run the unit once more in a fresh process
+                retried.add(idx)
+                pending.append((idx, job))
+                done.append(idx)
+                continue
             if got is not None:
                 base = dict(unit='%s[%s]' % (job[0][0], job[0][1]), function=job[0][0], case=job[0][1], obligations=[],
                             paths=0, sha=None, file=None, vacuity={}, seconds=round(time.time() - t0, 1))
@@ -552,6 +559,8 @@ def verify_many(jobs, nproc=12, unit_timeout_s=1500):
                 done.append(idx)
         for idx in done:
             p, conn, _, _ = running.pop(idx)
+            if results[idx] is None and idx in retried:
+                pass
             try:
                 conn.close()
             except Exception:
